@@ -13,7 +13,7 @@ RULE = ("(ref, query, k) cases are executed on symdel(seqs2=), nearest_neighbor(
 ASSUMPTIONS = ["an index object may change its internal state on look-ups (e.g. memoisation); only the answers are judged, and the BFS expands every new canonical state (all instance attributes, contents included) up to the depth bound",
                "LookupDB enumerates the 20-letter edit ball: k<=2 only for short strings (cost), k=3 only on U(AC,1)",
                "index state = (variant_dict / seq_dict contents, seqs, max_edits); other attributes do not exist on these classes (checked: vars())"]
-REQUIRED_CLASSES = {"all": ["q-equals-r-position-hit", "identical-sequence-d0", "duplicate-in-ref", "duplicate-in-query", "history-step", "same-object-both-sides", "history-changes-max_edits", "progress-option", "max_custom_distance-without-custom-distance", "history-with-failed-lookup"]}
+REQUIRED_CLASSES = {"all": ["q-equals-r-position-hit", "identical-sequence-d0", "duplicate-in-ref", "duplicate-in-query", "history-step", "same-object-both-sides", "history-changes-max_edits", "progress-option", "max_custom_distance-without-custom-distance", "history-with-failed-lookup", "non-amino-acid-symbols"]}
 MIN_OUTCOMES = 10
 
 ENG = ("symdel2", "nn2", "SymdelDB", "LookupDB")
@@ -74,6 +74,12 @@ def spaces(tier):
                 yield ("uu", alpha, L, k, "symdel2", "rev")
                 yield ("uu", alpha, L, k, "symdel2-same-object", "fwd")
                 yield ("uu", alpha, L, k, "nn2-same-object", "fwd")
+        # symbols outside the amino-acid alphabet (stop codon, unknown residue, lower case): any string is a legal element for the
+        # symdel-based engines (LookupDB enumerates the 20-letter ball by design and is left out)
+        for k in (1, 2):
+            for eng in ("symdel2", "nn2", "SymdelDB"):
+                yield ("uu", "AX*", 3, k, eng, "fwd")
+                yield ("few-queries", "Ax*", k, eng)
         # LookupDB: ball enumeration over 20 letters is exponential in k
         for alpha, L, k in ([("AC", 4, 1), ("ACD", 3, 1), ("AC", 2, 2), ("AC", 1, 3)] if q else
                             [("AC", 6, 1), ("ACD", 4, 1), ("AC", 3, 2), ("ACD", 2, 2), ("AC", 1, 3)]):
@@ -222,6 +228,15 @@ def check_case(case, acc):
         acc.extra["pairs_decided"] += len(ref) * len(query)
         _classes(acc, ref, query, expected)
         _compare(acc, case, eng, ref, query, k, run_engine(acc, eng, ref, query, k), expected)
+    elif kind == "few-queries":
+        # fewer queries than references, non-standard symbols on the reference side
+        _, alpha, k, eng = case
+        ref = E.universe(alpha, 3)
+        acc.cls("non-amino-acid-symbols")
+        for query in (("A",), ("AA", "x"), ("A*", "", "Ax")):
+            expected = neighbors_within(ref, k, queries=list(query))
+            if not _compare(acc, ("rq1", tuple(ref), query, k, eng), eng, ref, query, k, run_engine(acc, eng, ref, query, k), expected):
+                return
     elif kind == "rq1":
         _, ref, query, k, eng = case
         expected = neighbors_within(list(ref), k, queries=list(query))
